@@ -186,6 +186,11 @@ def make_plan(seed: int, tier: str, index: int) -> dict[str, Any]:
         else:
             schedule = {"mode": "pct", "seed": s.getrandbits(32), "d": s.choice([1, 2, 3]),
                         "est_steps": max(50, total_ops * s.choice([20, 60, 150]))}
+    if schedule["mode"] != "sequential" and s.random() < 0.2:
+        # knob: pre-empt between bytecodes (sys.monitoring) instead of between source lines
+        schedule["granularity"] = "opcode"
+        if "est_steps" in schedule:
+            schedule["est_steps"] *= 4
     return {"property": PROP, "seed": seed, "text": text, "present": present, "clients": clients,
             "schedule": schedule}
 
@@ -485,6 +490,7 @@ def execute(plan: dict[str, Any]) -> dict[str, Any]:
         "switches": sched.switches,
         "mid_op_switches": sched.mid_op_switches,
         "sched_mode": sched.mode,
+        "knobs": {"opcode_granularity": 1} if sched.granularity == "opcode" else {},
         "sub_batch": "single-client" if n_clients == 1 else "concurrent",
         "sample": {"clients": [c[:4] for c in plan["clients"]], "schedule": plan["schedule"],
                    "text_lines": text.count("\n")},
